@@ -115,8 +115,66 @@ attempts:
 		e.fail("panic", "`rare %s` on input %s died with a fatal runtime error:\n%s", strings.Join(cs.Args, " "), run.Q(cs.Input), clip(se[i:], 1500))
 	} else {
 		e.checkFormatWiring(stdout.String(), se)
+		e.checkHeatLegendScale(file, stdout.String(), se)
 	}
 	return classes
+}
+
+// checkHeatLegendScale: with both bounds pinned (--min a --max b, b >= 1000a) the heat map's legend is a function of the
+// bounds, the scale and the formatter alone. The same command with the other scale (linear <-> log10) must therefore show
+// another legend, and under log10 the step after the minimum is far below the linear one. (cmd/heatmap.go applies the
+// pinned bounds, the scale and the formatter one after the other; a legend drawn before the last of them is stale.)
+func (e *env) checkHeatLegendScale(file, out, se string) {
+	cs, c := e.cs, e.c
+	if len(cs.Args) == 0 || cs.Args[0] != "heatmap" || !matchedSome.MatchString(se+"\n"+out) {
+		return
+	}
+	get := func(flag string) (string, int) {
+		for i, a := range cs.Args {
+			if a == flag && i+1 < len(cs.Args) {
+				return cs.Args[i+1], i + 1
+			}
+		}
+		return "", -1
+	}
+	mn, _ := get("--min")
+	mx, _ := get("--max")
+	sc, si := get("--scale")
+	if fm, _ := get("--format"); fm != "" && fm != "{0}" {
+		return
+	}
+	var a, b int64
+	if _, err := fmt.Sscan(mn, &a); err != nil || a < 1 {
+		return
+	}
+	if _, err := fmt.Sscan(mx, &b); err != nil || b < 1000*a || si < 0 || (sc != "linear" && sc != "log10") {
+		return
+	}
+	other := map[string]string{"linear": "log10", "log10": "linear"}[sc]
+	args := append([]string{}, cs.Args...)
+	args[si] = other
+	args = append(args, file)
+	cmd := exec.Command(c.RareBin, args...)
+	var o2 bytes.Buffer
+	cmd.Stdout = &o2
+	done := make(chan error, 1)
+	if err := cmd.Start(); err != nil {
+		return
+	}
+	go func() { done <- cmd.Wait() }()
+	select {
+	case <-done:
+	case <-time.After(2 * time.Minute):
+		cmd.Process.Kill()
+		<-done
+		return
+	}
+	l1 := strings.SplitN(out, "\n", 2)[0]
+	l2 := strings.SplitN(o2.String(), "\n", 2)[0]
+	c.Count("cli_heatmap_legends_compared_across_scales", 1)
+	if l1 == l2 {
+		e.fail("proportional:heat", "`rare %s` shows the legend %q, and so does the same command with --scale %s: the legend does not follow the chosen scale", strings.Join(cs.Args, " "), l1, other)
+	}
 }
 
 var bracketNum = regexp.MustCompile(`<-?[0-9][0-9,]*>`)
@@ -138,7 +196,7 @@ func (e *env) checkFormatWiring(out, se string) {
 	}
 	// the positive claim only where numbers are certainly displayed: histogram, bar graph and table rows
 	// with non-zero row/column limits (a heatmap draws glyphs, a sparkline with no column has no numbers)
-	numbersShown := cs.Args[0] == "histo" || cs.Args[0] == "bars" || cs.Args[0] == "table"
+	numbersShown := cs.Args[0] == "histo" || cs.Args[0] == "bars" || cs.Args[0] == "table" || cs.Args[0] == "heatmap" // (a heat map's legend is numbers)
 	for i, a := range cs.Args {
 		if (a == "--cols" || a == "--rows" || a == "-n") && i+1 < len(cs.Args) && cs.Args[i+1] == "0" {
 			numbersShown = false
@@ -257,11 +315,16 @@ func genCLI(c *run.Ctx, r *run.Rand) *Case {
 		}
 	case 4:
 		cs.Args = withFmt([]string{"heatmap", "--cols", lim(nc), "--rows", lim(nr), "--scale", sc})
-		if r.Intn(3) == 0 {
-			cs.Args = append(cs.Args, "--min", fmt.Sprint(r.Range(-3, 5)))
-		}
-		if r.Intn(3) == 0 {
-			cs.Args = append(cs.Args, "--max", fmt.Sprint(r.Range(-3, 50)))
+		if r.Intn(2) == 0 && (sc == "linear" || sc == "log10") {
+			// both bounds pinned, three decades or more apart: the legend is then a function of bounds, scale and formatter
+			cs.Args = append(cs.Args, "--min", fmt.Sprint(r.Range(1, 3)), "--max", fmt.Sprint(r.Range(3, 90)*1000))
+		} else {
+			if r.Intn(3) == 0 {
+				cs.Args = append(cs.Args, "--min", fmt.Sprint(r.Range(-3, 5)))
+			}
+			if r.Intn(3) == 0 {
+				cs.Args = append(cs.Args, "--max", fmt.Sprint(r.Range(-3, 50)))
+			}
 		}
 		if r.Intn(4) == 0 && !c.KnownActive(fpHeatHang) {
 			cols[0] = "" // an empty column key (`(\w*)` matches nothing)
